@@ -2,6 +2,7 @@ from typing import TYPE_CHECKING, List, Optional
 
 from tealer.exceptions import TealerException
 from tealer.teal.instructions.instructions import Retsub
+from tealer.utils import verif_hooks
 
 if TYPE_CHECKING:
     from tealer.teal.basic_blocks import BasicBlock
@@ -117,6 +118,7 @@ class Subroutine:  # pylint: disable=too-many-instance-attributes
         return [b for b in self._exit_blocks if isinstance(b.exit_instr, Retsub)]
 
     @property
+    @verif_hooks.ordered("called_subroutines", key=lambda sub: sub.name)
     def called_subroutines(self) -> List["Subroutine"]:
         """List of subroutines called by this subroutine.
 
